@@ -98,8 +98,8 @@ pub fn gen_api_plan(prop: Prop, seed: u64, tier: Tier, index: u64, batch_seed: u
     // fault (cause, point) and the schedule differ.
     let points: u64 = if prop == Prop::C15 {
         match tier {
-            Tier::Quick => 12,
-            Tier::Thorough => 96,
+            Tier::Quick => 14,
+            Tier::Thorough => 98,
         }
     } else {
         1
@@ -168,7 +168,7 @@ pub fn gen_api_plan(prop: Prop, seed: u64, tier: Tier, index: u64, batch_seed: u
 
     let fault = if prop == Prop::C15 {
         let mut frng = Rng::new(crate::rng::run_seed(seed ^ 0xfa, index));
-        let kind = ["error", "eof", "shutdown", "drop_handles", "broker_shutdown", "shutdown_conn"][variant as usize % 6];
+        let kind = ["error", "eof", "send_error", "shutdown", "drop_handles", "broker_shutdown", "shutdown_conn"][variant as usize % 7];
         json!({"client": frng.below(n_clients), "kind": kind, "frac": frng.below(1001)})
     } else {
         json!({"kind": "none"})
